@@ -988,7 +988,8 @@ where
                         let mut fields: Vec<KVPair> = vec![];
                         fields.append(&mut k.into_iter().map(Into::into).collect());
                         fields.append(&mut v.into_iter().map(Into::into).collect());
-                        let s = Struct::new(ident.clone(), fields);
+                        // The binding has the fact's struct type.
+                        let s = Struct::new(fact.name.clone(), fields);
                         self.scope.set(ident, Value::Struct(s))?;
                         self.ipush(Value::Bool(false))?;
                     }
